@@ -1114,7 +1114,15 @@ def _dfs_env():
             return SNodeSet(lambda q: z3.BoolVal(False))
         return pyspec.vc_set(x)
 
-    def sorted_(x, **kw):
+    def sorted_(x, key=None, **kw):
+        if key is not None:
+            probe = object()
+            try:
+                ident = key(probe) is probe
+            except Exception:
+                ident = False
+            if not ident:
+                raise OutOfSubset('sorted(..., key=<not the identity>): ties are not modelled')
         if kw:
             raise OutOfSubset('sorted(..., %s)' % sorted(kw))
         if isinstance(x, nxspec.NodeView):
@@ -1346,7 +1354,7 @@ TRUSTED_BASE = ['pyvc engine: proxies, path forking, loop cutting, instrumenter 
                 'C15: get_sub_seed(seed, index) is a function of (seed, index) alone, in [0, high), cache kept within cache_ok (call-pre index >= 0 discharged here)',
                 'C03: Executor.execute/_run run the operations once each in the order of get_execution_order and pass parent outputs by reference; the other compilers/loaders only write the net they are given (assumed by name)',
                 'numpy: RandomState(seed) is a new object whose stream is a function of the seed (sanity-tested); uuid4().hex is 32 lower-case hex digits (sanity-tested)',
-                'python str order = code-point order (sanity-tested); sorted() returns the elements of its argument in non-decreasing order, a function of the SET of elements when they are pairwise distinct',
+                'python str order = code-point order (sanity-tested); sorted() is stable and returns the elements in non-decreasing KEY order: a function of the SET of elements only when the key is injective on them (no key / identity - a syntactic obligation per sort call; lower/len-style keys are refuted, unknown keys undecided)',
                 'z3 integer encoding of bounded-length strings for the name-order obligation (names of length <= 8)']
 ASSUMPTIONS = ['A-INT, A-LOG', 'user operations draw only from the random_state they are handed and are otherwise deterministic (outside the frame)',
                "node names are strings; '_random_state' is reserved (not a user node); user names do not start with '_'",
